@@ -289,9 +289,10 @@ void lltdLoop (void *data){
         lltd_demultiplex_header_t *header = currentNetworkInterface->recvBuffer;
 
         // Derive session event from the received frame
-        int sess_event = derive_session_event(currentNetworkInterface->recvBuffer,
-                                              currentNetworkInterface->sessionTable,
-                                              currentNetworkInterface->macAddress);
+        int sess_event = derive_session_event_len(currentNetworkInterface->recvBuffer,
+                                                  (size_t)recvLen,
+                                                  currentNetworkInterface->sessionTable,
+                                                  currentNetworkInterface->macAddress);
 
         // Update session table based on received frame
         if (header->opcode == opcode_discover) {
